@@ -96,16 +96,18 @@ Listen == [do |-> "listen", group |-> "default", id |-> "@SID@"]
 \* timed out (a wedged dispatch or sweep leaves the process up and answering, so a probe is not enough)
 Canary(k) ==
   << [do |-> "listen", group |-> "canary", id |-> "@SID@"],
-     Http("canary-create", "POST", "/promises", "{\"id\":\"canary-" \o k \o "-@SID@\",\"timeout\":@NOW+300@,\"tags\":{\"resonate:invoke\":\"poll://canary/@SID@\"}}"),
-     \* the harness repeats these two looks until what is awaited is there, for at most 12 s (the
+     \* two canaries: one routed (it lives long enough to be dispatched whatever the load), one short-lived
+     Http("canary-create", "POST", "/promises", "{\"id\":\"canary-" \o k \o "-@SID@\",\"timeout\":@NOW+600000@,\"tags\":{\"resonate:invoke\":\"poll://canary/@SID@\"}}"),
+     Http("canary-create", "POST", "/promises", "{\"id\":\"canary-t-" \o k \o "-@SID@\",\"timeout\":@NOW+300@}"),
+     \* the harness repeats these two looks until what is awaited is there, for at most 20 s (the
      \* periods involved are 50 - 300 ms: a loaded machine is slow, a wedged server never gets there)
-     [do |-> "received", name |-> "canary-" \o k, group |-> "canary", id |-> "@SID@", ms |-> 12000,
+     [do |-> "received", name |-> "canary-" \o k, group |-> "canary", id |-> "@SID@", ms |-> 20000,
       until |-> [task |-> "__invoke:canary-" \o k \o "-@SID@"]],
-     [do |-> "rows", name |-> "canary-" \o k, ms |-> 12000, until |-> [table |-> "promises", id |-> "canary-" \o k \o "-@SID@", state |-> 16]] >>
+     [do |-> "rows", name |-> "canary-t-" \o k, ms |-> 20000, until |-> [table |-> "promises", id |-> "canary-t-" \o k \o "-@SID@", state |-> 16]] >>
 \* ... and the schedule sweep: a schedule created afterwards fires
 CanaryS(k) ==
   << Http("canary-create", "POST", "/schedules", "{\"id\":\"canary-s-" \o k \o "-@SID@\",\"cron\":\"* * * * * *\",\"promiseId\":\"{{.id}}.{{.timestamp}}\",\"promiseTimeout\":60000}"),
-     [do |-> "rows", name |-> "canary-s-" \o k, ms |-> 14000, until |-> [table |-> "promises", sched |-> "canary-s-" \o k \o "-@SID@"]] >>
+     [do |-> "rows", name |-> "canary-s-" \o k, ms |-> 20000, until |-> [table |-> "promises", sched |-> "canary-s-" \o k \o "-@SID@"]] >>
 Aftermath(ms) == << Sleep(ms), Probe("after-cycles"), Db >> \o Canary("1") \o << Kill, Start, Probe("after-restart"), Sleep(ms), Probe("after-restart-cycles"), Db >> \o Canary("2")
 
 PromiseFields == << <<"id", "\"@SID@\"">>, <<"timeout", "@NOW+400@">>,
@@ -204,7 +206,8 @@ MoreScenarios ==
       RelFields == << <<"resourceId", "\"r-@SID@\"">>, <<"executionId", "\"e\"">> >>
       PidFields == << <<"processId", "\"w\"">> >>
       CtFields == << <<"id", "\"__invoke:@SID@\"">>, <<"counter", "1">> >>
-      LockSetup == Http("setup", "POST", "/locks/acquire", Obj(LockFields))
+      \* (a lease long enough not to run out between the two looks at the database around the hostile request)
+      LockSetup == Http("setup", "POST", "/locks/acquire", Obj(With(LockFields, "ttl", "600000")))
   IN {[ep |-> "POST /promises/task", field |-> "promise." \o x[1], raw |-> x[2].raw, expect |-> x[2].expect,
        steps |-> << Listen, Http("hostile", "POST", "/promises/task", PromiseTaskBody(With(RoutedPromiseFields, x[1], x[2].raw), TaskBodyFields)),
                     Http("read", "GET", "/promises/@SID@", "") >> \o Aftermath(700)] : x \in pcases}
@@ -254,7 +257,8 @@ SearchScenarios ==
 \* --- a genuine cursor of one search handed to the other search (and a promise cursor replayed with other filters)
 CursorScenarios ==
   LET three == << CreateP("a-@SID@", "@NOW+60000@", "{}"), CreateP("b-@SID@", "@NOW+60000@", "{}"), CreateP("c-@SID@", "@NOW+60000@", "{}"),
-                  Http("s1", "POST", "/schedules", Obj(With(ScheduleFields, "id", "\"s1-@SID@\""))), Http("s2", "POST", "/schedules", Obj(With(ScheduleFields, "id", "\"s2-@SID@\""))),
+                  Http("s1", "POST", "/schedules", Obj(With(With(ScheduleFields, "id", "\"s1-@SID@\""), "cron", "\"0 0 1 1 *\""))),
+                  Http("s2", "POST", "/schedules", Obj(With(With(ScheduleFields, "id", "\"s2-@SID@\""), "cron", "\"0 0 1 1 *\""))),
                   Http("ppage", "GET", "/promises?id=*&limit=1", ""), Http("spage", "GET", "/schedules?id=*&limit=1", "") >>
       uses == { <<"promise cursor to schedules", "/schedules?cursor=@JSON:ppage:cursor@">>, <<"schedule cursor to promises", "/promises?cursor=@JSON:spage:cursor@">>,
                 <<"promise cursor with other filters", "/promises?id=zzz*&state=resolved&limit=5&cursor=@JSON:ppage:cursor@">>,
